@@ -17,6 +17,7 @@ for X in A B; do Y=$X; [ -n "${ROUND2:-}" ] && { [ $X = A ] && Y=C || Y=D; }
   [ "${ROUND:-}" = 5 ] && { [ $X = A ] && Y=I || Y=J; }
   [ "${ROUND:-}" = 6 ] && { [ $X = A ] && Y=K || Y=L; }
   [ "${ROUND:-}" = 7 ] && { [ $X = A ] && Y=M || Y=N; }
+  [ "${ROUND:-}" = 8 ] && { [ $X = A ] && Y=O || Y=P; }
   D="$SRC/out/$X"; [ -f "$D/patch.diff" ] || continue
   OUT=/verif/seeded/$ID-$Y; LOG=$(mktemp); PATCH=$(mktemp)
   git checkout -q -- . ; rm -f tests/demo.rs
